@@ -292,7 +292,11 @@ pub fn c12_angles(c: &mut Ctx) {
         }
     };
     for i in 0..n {
-        let a = if i % 3 == 0 {
+        let a = if i % 16 == 1 {
+            crate::pools::round_integer(&mut c.rng)
+        } else if i % 16 == 2 {
+            crate::pools::published_const(&mut c.rng)
+        } else if i % 3 == 0 {
             // every mantissa region, low word close to +- half an ulp (largest product rounding errors)
             let hi = mk(c.rng.coin(), c.rng.range(-450, 449), c.rng.next() & MANT_MASK);
             let cls = pk!(c.rng, [2u64, 4, 11, 11, 8]);
@@ -1064,8 +1068,25 @@ pub fn c17(c: &mut Ctx) {
 pub fn emit_c17(e: &mut Emit) {
     emit_grid(e, &[("asin", |x| x.asin()), ("acos", |x| x.acos())], &[(0.0, 0.9999)], |_| true);
     emit_grid(e, &[("atan", |x| x.atan())], &[(0.0, 1.0), (0.0, 4.0), (0.0, 100.0)], |_| true);
+    // dense windows (+-3%) around every reduction breakpoint: errors that only just exceed the bound
+    // tend to sit at the edge of a polynomial's interval
+    for _ in 0..e.budget(48_000, 2_400_000) {
+        let bp = pk!(e.rng, [0.4375f64, 0.6875, 1.1875, 2.4375, 0.5, 1.0]);
+        let u = (e.rng.next() >> 11) as f64 * pow2(-53);
+        let hi = bp * (0.97 + 0.06 * u) * if e.rng.coin() { 1.0 } else { -1.0 };
+        let (h, l, _) = tf_with_hi(&mut e.rng, hi);
+        e.ev("atan", &tf1((h, l)), || v2(t((h, l)).atan()));
+        let hi = 0.5 * (0.97 + 0.06 * u) * if e.rng.coin() { 1.0 } else { -1.0 };
+        let (h, l, _) = tf_with_hi(&mut e.rng, hi);
+        e.ev("asin", &tf1((h, l)), || v2(t((h, l)).asin()));
+    }
+    for _ in 0..e.budget(120_000, 6_000_000) {
+        // log-uniform over the whole large-argument range
+        let a = tf_in(&mut e.rng, 1, 59);
+        e.ev("atan", &tf1(a), || v2(t(a).atan()));
+    }
     for _ in 0..e.budget(40_000, 2_000_000) {
-        let a = special_hi(&mut e.rng);
+        let a = if e.rng.chance(1, 6) { crate::pools::published_const(&mut e.rng) } else { special_hi(&mut e.rng) };
         e.ev("atan", &tf1(a), || v2(t(a).atan()));
         if a.0.abs() < 1.0 || (a.0.abs() == 1.0 && a.1 * a.0 <= 0.0) {
             e.ev("asin", &tf1(a), || v2(t(a).asin()));
